@@ -33,11 +33,11 @@ theorem nestBlock_nobrk : ∀ (ss : List Stmt) (lo : VSet), nestBlock ss lo = tr
 /-- The pieces of `nestStmt` for a `for` loop. -/
 theorem nestStmt_for {i : Name} {ok : Bool} {b : Expr} {body : List Stmt} {lo : VSet}
     (h : nestStmt (.for_ i ok b body) lo = true) :
-    ok = true ∧ tensorRhs b = true ∧ i ∉ lo ∧ (∃ d, assignedBlock body = some d ∧ i ∉ d) ∧
+    ok = true ∧ True ∧ i ∉ lo ∧ (∃ d, assignedBlock body = some d ∧ i ∉ d) ∧
       stableStmt (.for_ i ok b body) lo = true ∧ nestBlock body (loopBodyLo (.for_ i ok b body) lo) = true := by
   simp only [nestStmt, Bool.and_eq_true, Bool.not_eq_true'] at h
-  obtain ⟨⟨⟨⟨⟨h1, h2⟩, h3⟩, h4⟩, h5⟩, h6⟩ := h
-  refine ⟨h1, h2, ?_, ?_, h5, h6⟩
+  obtain ⟨⟨⟨⟨h1, h3⟩, h4⟩, h5⟩, h6⟩ := h
+  refine ⟨h1, trivial, ?_, ?_, h5, h6⟩
   · intro hm
     have := List.contains_iff_mem.mpr hm
     rw [h3] at this; cases this
@@ -386,15 +386,14 @@ theorem nestStmt_run (S : Sem V) (fuel : Nat) : ∀ (st : Stmt) (lo : VSet) {ρ 
               cases hd
               exact r.frame b' hea y (fun hm => hy (mem_vunion.mpr (Or.inr hm)))
   | .for_ i ok b body, lo, ρ, o, hi, hρ, h => by
-    obtain ⟨rfl, hb, _, ⟨d, hd, _⟩, _, hbody⟩ := nestStmt_for hi
+    obtain ⟨rfl, _, _, ⟨d, hd, _⟩, _, hbody⟩ := nestStmt_for hi
     unfold evalStmt at h
     simp only [Bool.not_true, Bool.false_eq_true, if_false] at h
     cases hbe : evalExpr S ρ b with
     | none => simp [hbe] at h
     | some bv =>
-      obtain ⟨bvv, rfl⟩ := tensorRhs_result hρ hb hbe
-      simp only [hbe, natPV] at h
-      cases hn : S.natOf bvv with
+      simp only [hbe] at h
+      cases hn : natPV S bv with
       | none => simp [hn] at h
       | some n =>
         simp only [hn] at h
@@ -1040,6 +1039,7 @@ theorem branch_run_ev (S : Sem V) (hId : ∀ v, S.op "" "Identity" [some v] [] =
     {lo liveDefs : VSet} {ρ' : Store V} {Lb : Locals} {env1 envT : Env V} {sB sC : St}
     {bn bn2 : List Node} {bo : List Name}
     (hevT : EvFrom S env1 bn envT) (invT : Inv S lo ρ' Lb envT sB) (hld : ∀ x, x ∈ liveDefs → x ∈ lo)
+    (hfreeB : FreeOf Lb liveDefs)
     (h3 : blockOutputs Lb liveDefs bn [] sB = .ok ((bo, bn2), sC)) :
     ∃ envB rs, EvFrom S env1 (bn ++ bn2) envB ∧ bo.mapM envB = some rs
       ∧ All2 (fun r pv => ρ' pv = some (PV.t r)) rs liveDefs := by
@@ -1054,13 +1054,14 @@ theorem branch_run_ev (S : Sem V) (hId : ∀ v, S.op "" "Identity" [some v] [] =
       rw [hl] at hl'
       cases hl'
       exact ⟨v, hr.1, rfl⟩
-  obtain ⟨envT2, evT2, _, _, _, aT2⟩ := blockOutputs_sim S 0 hId Lb invT.noattr liveDefs bn [] invT.vis hfT h3
+  obtain ⟨envT2, evT2, _, _, _, aT2⟩ := blockOutputs_sim S 0 hId Lb liveDefs bn [] invT.vis hfreeB hfT h3
   obtain ⟨rs, hrs, hall⟩ := outs_values aT2
   exact ⟨envT2, rs, EvFrom.seq hevT (EvFrom.of_eval evT2), hrs, hall⟩
 
 /-- `BodyFacts` of a block of the fragment, given its simulation. -/
 theorem bodyFacts_of_nest (S : Sem V) (fuel : Nat) {body : List Stmt} {F : VSet} (hbody : nestBlock body F = true)
     (hsim : ∀ {L L' : Locals} {ρ ρ1 : Store V} {env : Env V} {s s' : St} {ns : List Node},
+      FreeOf L (targetsBlock body) →
       Inv S (liveInBlock body F) ρ L env s → evalBlock S fuel body ρ = some (.normal ρ1) →
       convStmts L body F s = .ok ((L', ns), s') →
       ∃ env', EvFrom S env ns env' ∧ Inv S F ρ1 L' env' s' ∧ Ext env env' s s' ∧ Mono s s') :
@@ -1081,7 +1082,7 @@ theorem while_stmt_core (S : Sem V) (fuel : Nat) (hConst : ∀ l, ∃ c, constOf
     (hB : BodyFacts S fuel body (loopBodyLo (.while_ (.var t) body) lo))
     (hd : assignedBlock body = some d) (hs : loopState body lo = some state)
     (hside : t ∈ state ∨ t ∉ liveInBlock body (loopBodyLo (.while_ (.var t) body) lo))
-    (hstab : stableStmt (.while_ (.var t) body) lo = true)
+    (hstab : stableStmt (.while_ (.var t) body) lo = true) (hfree : FreeOf L (targetsBlock body))
     (hinv : Inv S (liveInStmt (.while_ (.var t) body) lo) ρ L env s)
     (he : evalStmt S fuel (.while_ (.var t) body) ρ = some (.normal ρ'))
     (h : convStmt L (.while_ (.var t) body) lo s = .ok ((L', ns), s')) :
@@ -1110,27 +1111,28 @@ theorem while_stmt_core (S : Sem V) (fuel : Nat) (hConst : ∀ l, ∃ c, constOf
   try dsimp only at h
   obtain ⟨q1, q2⟩ := pure_ok h
   cases q1; subst q2
-  obtain ⟨G, env', ev, inv', x'⟩ := while_core S fuel hConst hId hB hd hs (whileLiveE_of_stable hB hstab) hside hinv he
+  obtain ⟨G, env', ev, inv', x'⟩ := while_core S fuel hConst hId hB hd hs (whileLiveE_of_stable hB hstab) hside hfree hinv he
     h2 h1 h3 h4 h5 hfr.1 (hsc.2.mono (fun y hy => after_in_used hfr hy))
   exact ⟨G, env', ev, inv', x', hfr.1⟩
 
 mutual
 theorem nestStmt_sim (S : Sem V) (fuel : Nat) (hConst : ∀ l, ∃ c, constOf S l = some c)
-    (hId : ∀ v, S.op "" "Identity" [some v] [] = some [v]) (hT : S.truth (S.ofBool true) = some true) :
+    (hId : ∀ v, S.op "" "Identity" [some v] [] = some [v]) (hT : S.truth (S.ofBool true) = some true)
+    (hNat : ∀ k c, constOf S (.int k) = some c → S.natOf c = some k.toNat) :
     ∀ (st : Stmt) (lo : VSet) {ρ ρ' : Store V} {L L' : Locals} {env : Env V} {s s' : St} {ns : List Node},
-    nestStmt st lo = true → Inv S (liveInStmt st lo) ρ L env s →
+    nestStmt st lo = true → FreeOf L (targetsStmt st) → Inv S (liveInStmt st lo) ρ L env s →
     evalStmt S fuel st ρ = some (.normal ρ') → convStmt L st lo s = .ok ((L', ns), s') →
     ∃ env', EvFrom S env ns env' ∧ Inv S lo ρ' L' env' s' ∧ Ext env env' s s' ∧ Mono s s'
-  | .assign x e, lo, ρ, ρ', L, L', env, s, s', ns, hi, hinv, he, h => by
-    obtain ⟨env', ev, inv, x', m⟩ := stmt_step S fuel hConst hId _ lo (nestStmt_assign hi) hinv he h
+  | .assign x e, lo, ρ, ρ', L, L', env, s, s', ns, hi, hfree, hinv, he, h => by
+    obtain ⟨env', ev, inv, x', m⟩ := stmt_step S fuel hConst hId _ lo (nestStmt_assign hi) hfree hinv he h
     exact ⟨env', EvFrom.of_eval ev, inv, x', m⟩
-  | .par xs es, lo, ρ, ρ', L, L', env, s, s', ns, hi, hinv, he, h => by
-    obtain ⟨env', ev, inv, x', m⟩ := stmt_step S fuel hConst hId _ lo (nestStmt_par hi) hinv he h
+  | .par xs es, lo, ρ, ρ', L, L', env, s, s', ns, hi, hfree, hinv, he, h => by
+    obtain ⟨env', ev, inv, x', m⟩ := stmt_step S fuel hConst hId _ lo (nestStmt_par hi) hfree hinv he h
     exact ⟨env', EvFrom.of_eval ev, inv, x', m⟩
-  | .skip, lo, ρ, ρ', L, L', env, s, s', ns, hi, hinv, he, h => by
-    obtain ⟨env', ev, inv, x', m⟩ := stmt_step S fuel hConst hId .skip lo (by simp [ifStmt]) hinv he h
+  | .skip, lo, ρ, ρ', L, L', env, s, s', ns, hi, hfree, hinv, he, h => by
+    obtain ⟨env', ev, inv, x', m⟩ := stmt_step S fuel hConst hId .skip lo (by simp [ifStmt]) hfree hinv he h
     exact ⟨env', EvFrom.of_eval ev, inv, x', m⟩
-  | .ite c t e, lo, ρ, ρ', L, L', env, s, s', ns, hi0, hinv, he, h => by
+  | .ite c t e, lo, ρ, ρ', L, L', env, s, s', ns, hi0, hfree, hinv, he, h => by
     have hfr := convStmt_fresh L _ lo h
     have hsc := convStmt_scope L _ lo hinv.vis (fun x hx => hx) h
     have hcast := nestStmt_cast L _ lo hi0 h
@@ -1188,6 +1190,12 @@ theorem nestStmt_sim (S : Sem V) (fuel : Nat) (hConst : ∀ l, ∃ c, constOf S 
                     cases ha
                     exact ⟨ta, ea, rfl, rfl, rfl⟩
               have hld : ∀ x, x ∈ vinter lo defs → x ∈ lo := fun x hx => (mem_vinter.mp hx).1
+              have hfreeT : FreeOf ([] :: L) (targetsBlock t) :=
+                (hfree.sub (fun x hx => by simp [targetsStmt, hx])).mono (AttrMono.push L)
+              have hfreeE : FreeOf ([] :: L) (targetsBlock e) :=
+                (hfree.sub (fun x hx => by simp [targetsStmt, hx])).mono (AttrMono.push L)
+              have hfreeD : FreeOf ([] :: L) (vinter lo defs) :=
+                (hfree.sub (fun x hx => assigned_sub_targets _ ha x (mem_vinter.mp hx).2)).mono (AttrMono.push L)
               have hLv : ∀ y, y ∈ usedVars c → y ∈ liveInStmt (.ite c t e) lo := by
                 intro y hy; unfold liveInStmt; exact mem_vunion.mpr (Or.inr hy)
               have hc' : evalExpr S (restrict ρ (liveInStmt (.ite c t e) lo)) c = some (.t cvv) := by
@@ -1251,8 +1259,8 @@ theorem nestStmt_sim (S : Sem V) (fuel : Nat) (hConst : ∀ l, ∃ c, constOf S 
                   intro y hy; unfold liveInStmt
                   exact mem_vunion.mpr (Or.inl (mem_vunion.mpr (Or.inl hy))))
                 obtain ⟨envT, hevT, invT, _, _⟩ :=
-                  nestBlock_sim S fuel hConst hId hT t lo hi.1.2 hinvT.push he h2
-                obtain ⟨envB, rs, ⟨GB, evB⟩, hrs, hall⟩ := branch_run_ev S hId hevT invT hld h3
+                  nestBlock_sim S fuel hConst hId hT hNat t lo hi.1.2 hfreeT hinvT.push he h2
+                obtain ⟨envB, rs, ⟨GB, evB⟩, hrs, hall⟩ := branch_run_ev S hId hevT invT hld (hfreeD.mono (convStmts_attrMono _ _ _ h2)) h3
                 have hlen : rs.length = renamed.length := by rw [all2_len hall, l6]
                 refine finish rs ta (fun x hx => by rw [hdefs]; exact mem_vunion.mpr (Or.inl hx))
                   (by rw [← hta]; exact runT) hall ⟨GB, fun G hG => ?_⟩
@@ -1268,41 +1276,44 @@ theorem nestStmt_sim (S : Sem V) (fuel : Nat) (hConst : ∀ l, ∃ c, constOf S 
                   intro y hy; unfold liveInStmt
                   exact mem_vunion.mpr (Or.inl (mem_vunion.mpr (Or.inr hy))))
                 obtain ⟨envT, hevT, invT, _, _⟩ :=
-                  nestBlock_sim S fuel hConst hId hT e lo hi.2 hinvE.push he h4
-                obtain ⟨envB, rs, ⟨GB, evB⟩, hrs, hall⟩ := branch_run_ev S hId hevT invT hld h5
+                  nestBlock_sim S fuel hConst hId hT hNat e lo hi.2 hfreeE hinvE.push he h4
+                obtain ⟨envB, rs, ⟨GB, evB⟩, hrs, hall⟩ := branch_run_ev S hId hevT invT hld (hfreeD.mono (convStmts_attrMono _ _ _ h4)) h5
                 have hlen : rs.length = renamed.length := by rw [all2_len hall, l6]
                 refine finish rs ea (fun x hx => by rw [hdefs]; exact mem_vunion.mpr (Or.inr hx))
                   (by rw [← hea]; exact runE) hall ⟨GB, fun G hG => ?_⟩
                 simp [evalNodes, evalNode, r1.1, hb, evB G hG, Env.getMany, hrs, hlen]
-  | .for_ i ok b body, lo, ρ, ρ', L, L', env, s, s', ns, hi, hinv, he, h => by
-    obtain ⟨rfl, hb, _, ⟨d, hd, hid⟩, hst, hbody⟩ := nestStmt_for hi
+  | .for_ i ok b body, lo, ρ, ρ', L, L', env, s, s', ns, hi, hfree, hinv, he, h => by
+    obtain ⟨rfl, _, _, ⟨d, hd, hid⟩, hst, hbody⟩ := nestStmt_for hi
     have hB := bodyFacts_of_nest S fuel hbody
-      (fun hinv' he' hc' => nestBlock_sim S fuel hConst hId hT body _ hbody hinv' he' hc')
+      (fun hf' hinv' he' hc' => nestBlock_sim S fuel hConst hId hT hNat body _ hbody hf' hinv' he' hc')
     obtain ⟨G, env', ev, inv', x', m'⟩ :=
-      for_step S fuel hConst hId hT hb hB hd hid (forLiveE_of_stable hB hst) hinv he h
+      for_step S fuel hConst hId hT hNat hB hd hid (hfree.sub (fun x hx => by simp [targetsStmt, hx]))
+        (forLiveE_of_stable hB hst) hinv he h
     exact ⟨env', EvFrom.of_eval ev, inv', x', m'⟩
-  | .while_ c body, lo, ρ, ρ', L, L', env, s, s', ns, hi, hinv, he, h => by
+  | .while_ c body, lo, ρ, ρ', L, L', env, s, s', ns, hi, hfree, hinv, he, h => by
     obtain ⟨t, rfl⟩ := nestStmt_while_var hi
     obtain ⟨⟨d, state, hd, hs, hside⟩, hst, hbody⟩ := nestStmt_while hi
     have hB := bodyFacts_of_nest S fuel hbody
-      (fun hinv' he' hc' => nestBlock_sim S fuel hConst hId hT body _ hbody hinv' he' hc')
-    obtain ⟨G, env', ev, inv', x', m'⟩ := while_stmt_core S fuel hConst hId hB hd hs hside hst hinv he h
+      (fun hf' hinv' he' hc' => nestBlock_sim S fuel hConst hId hT hNat body _ hbody hf' hinv' he' hc')
+    obtain ⟨G, env', ev, inv', x', m'⟩ := while_stmt_core S fuel hConst hId hB hd hs hside hst
+      (hfree.sub (fun x hx => by simpa [targetsStmt] using hx)) hinv he h
     exact ⟨env', EvFrom.of_eval ev, inv', x', m'⟩
-  | .tuple xs e, lo, ρ, ρ', L, L', env, s, s', ns, hi, hinv, he, h => by
+  | .tuple xs e, lo, ρ, ρ', L, L', env, s, s', ns, hi, _, hinv, he, h => by
     obtain ⟨⟨dom, op, sig, args, attrs, rfl⟩, hnd⟩ := nestStmt_tuple hi
     obtain ⟨env', ev, inv, x', m⟩ := tuple_step S fuel hConst hnd hinv he h
     exact ⟨env', EvFrom.of_eval ev, inv, x', m⟩
-  | .badAssign _ _, _, _, _, _, _, _, _, _, _, hi, _, _, _ => by simp [nestStmt] at hi
-  | .brk _, _, _, _, _, _, _, _, _, _, hi, _, _, _ => by simp [nestStmt] at hi
-  | .ret _ _, _, _, _, _, _, _, _, _, _, hi, _, _, _ => by simp [nestStmt] at hi
-  | .unsupported, _, _, _, _, _, _, _, _, _, hi, _, _, _ => by simp [nestStmt] at hi
+  | .badAssign _ _, _, _, _, _, _, _, _, _, _, hi, _, _, _, _ => by simp [nestStmt] at hi
+  | .brk _, _, _, _, _, _, _, _, _, _, hi, _, _, _, _ => by simp [nestStmt] at hi
+  | .ret _ _, _, _, _, _, _, _, _, _, _, hi, _, _, _, _ => by simp [nestStmt] at hi
+  | .unsupported, _, _, _, _, _, _, _, _, _, hi, _, _, _, _ => by simp [nestStmt] at hi
 theorem nestBlock_sim (S : Sem V) (fuel : Nat) (hConst : ∀ l, ∃ c, constOf S l = some c)
-    (hId : ∀ v, S.op "" "Identity" [some v] [] = some [v]) (hT : S.truth (S.ofBool true) = some true) :
+    (hId : ∀ v, S.op "" "Identity" [some v] [] = some [v]) (hT : S.truth (S.ofBool true) = some true)
+    (hNat : ∀ k c, constOf S (.int k) = some c → S.natOf c = some k.toNat) :
     ∀ (ss : List Stmt) (lo : VSet) {ρ ρ' : Store V} {L L' : Locals} {env : Env V} {s s' : St} {ns : List Node},
-    nestBlock ss lo = true → Inv S (liveInBlock ss lo) ρ L env s →
+    nestBlock ss lo = true → FreeOf L (targetsBlock ss) → Inv S (liveInBlock ss lo) ρ L env s →
     evalBlock S fuel ss ρ = some (.normal ρ') → convStmts L ss lo s = .ok ((L', ns), s') →
     ∃ env', EvFrom S env ns env' ∧ Inv S lo ρ' L' env' s' ∧ Ext env env' s s' ∧ Mono s s'
-  | [], lo, ρ, ρ', L, L', env, s, s', ns, _, hinv, he, h => by
+  | [], lo, ρ, ρ', L, L', env, s, s', ns, _, _, hinv, he, h => by
     unfold evalBlock at he
     cases he
     unfold convStmts at h
@@ -1310,7 +1321,7 @@ theorem nestBlock_sim (S : Sem V) (fuel : Nat) (hConst : ∀ l, ∃ c, constOf S
     cases q1; subst q2
     unfold liveInBlock at hinv
     exact ⟨env, EvFrom.of_eval (evalNodes_nil S 0 _), hinv, Ext.refl _ _, Mono.refl _⟩
-  | st :: ss, lo, ρ, ρ', L, L', env, s, s', ns, hi, hinv, he, h => by
+  | st :: ss, lo, ρ, ρ', L, L', env, s, s', ns, hi, hfree, hinv, he, h => by
     simp only [nestBlock, Bool.and_eq_true] at hi
     unfold liveInBlock at hinv
     unfold evalBlock at he
@@ -1328,8 +1339,9 @@ theorem nestBlock_sim (S : Sem V) (fuel : Nat) (hConst : ∀ l, ∃ c, constOf S
       try dsimp only at h
       obtain ⟨q1, q2⟩ := pure_ok h
       cases q1; subst q2
-      obtain ⟨env1, ev1, inv1, x1, m1⟩ := nestStmt_sim S fuel hConst hId hT st _ hi.1 hinv hs h1
-      obtain ⟨env2, ev2, inv2, x2, m2⟩ := nestBlock_sim S fuel hConst hId hT ss lo hi.2 inv1 he h2
+      obtain ⟨env1, ev1, inv1, x1, m1⟩ := nestStmt_sim S fuel hConst hId hT hNat st _ hi.1 hfree.head.1 hinv hs h1
+      obtain ⟨env2, ev2, inv2, x2, m2⟩ := nestBlock_sim S fuel hConst hId hT hNat ss lo hi.2
+        (hfree.head.2.mono (convStmt_attrMono L st _ h1)) inv1 he h2
       exact ⟨env2, EvFrom.seq ev1 ev2, inv2, x1.trans m1 x2, m1.trans m2⟩
 end
 
@@ -1351,13 +1363,14 @@ theorem nestLine_cons {st : Stmt} {ss : List Stmt} (h : nestLine (st :: ss) = tr
 
 theorem convTop_nest_sim (S : Sem V) (fuel : Nat) (hConst : ∀ l, ∃ c, constOf S l = some c)
     (hId : ∀ v, S.op "" "Identity" [some v] [] = some [v]) (hT : S.truth (S.ofBool true) = some true)
+    (hNat : ∀ k c, constOf S (.int k) = some c → S.natOf c = some k.toNat)
     (hNot : ∀ v bk, S.truth v = some bk → ∃ w, S.op "" "Not" [some v] [] = some [w] ∧ S.truth w = some (!bk))
     (hAnd : ∀ x y yb, S.truth y = some yb → ∃ w, S.op "" "And" [some x, some y] [] = some [w] ∧
       (yb = false → S.truth w = some false) ∧ (yb = true → S.truth w = S.truth x))
     {inputs : List Name} {rc : Option Nat} :
     ∀ (body : List Stmt) (L : Locals) {ρ : Store V} {env : Env V} {s s' : St} {ns : List Node}
       {outs : List Name} {pvs : List (PV V)} {vs : List V},
-      nestLine body = true → Inv S (liveInBlock body []) ρ L env s →
+      nestLine body = true → FreeOf L (targetsBlock body) → Inv S (liveInBlock body []) ρ L env s →
       evalBlock S fuel body ρ = some (.returned pvs) → pvs.mapM (toTensor S) = some vs →
       convTop inputs rc L body [] s = .ok ((ns, outs), s') →
       ∃ G env', evalNodes S G env ns = some env' ∧ outs.mapM env' = some vs := by
@@ -1365,10 +1378,10 @@ theorem convTop_nest_sim (S : Sem V) (fuel : Nat) (hConst : ∀ l, ∃ c, constO
   induction body with
   | nil => intro L ρ env s s' ns outs pvs vs hi; simp [nestLine] at hi
   | cons st ss ih =>
-    intro L ρ env s s' ns outs pvs vs hi hinv he hv h
+    intro L ρ env s s' ns outs pvs vs hi hfree hinv he hv h
     rcases nestLine_cons hi with ⟨es, rfl, rfl⟩ | ⟨hst, hss⟩
     · obtain ⟨env', ev, hm⟩ := convTop_if_sim S fuel hConst hId [.ret es false] L (by simp [ifLine])
-        hinv he hv h
+        hfree hinv he hv h
       exact ⟨fuel, env', ev, hm⟩
     · unfold liveInBlock at hinv
       unfold evalBlock at he
@@ -1394,12 +1407,12 @@ theorem convTop_nest_sim (S : Sem V) (fuel : Nat) (hConst : ∀ l, ∃ c, constO
             Inv S (liveInBlock ss []) ρ1 L1 env' s1 := by
           rcases hst with h' | h'
           · obtain ⟨ρ1, rfl, _⟩ := nestStmt_run S fuel st _ h' hinv.allT hs
-            obtain ⟨env', ⟨G, ev⟩, inv', _, _⟩ := nestStmt_sim S fuel hConst hId hT st _ h' hinv hs h1
+            obtain ⟨env', ⟨G, ev⟩, inv', _, _⟩ := nestStmt_sim S fuel hConst hId hT hNat st _ h' hfree.head.1 hinv hs h1
             exact ⟨ρ1, rfl, G, env', ev G (Nat.le_refl _), inv'⟩
-          · exact top_step S fuel hConst hId hT hNot hAnd st _ h' hinv hs h1
+          · exact top_step S fuel hConst hId hT hNat hNot hAnd st _ h' hfree.head.1 hinv hs h1
         obtain ⟨ρ1, rfl, G1, env1, ev1, inv1⟩ := hstep
         simp only [hs] at he
-        obtain ⟨G2, env2, ev2, hm2⟩ := ih L1 hss inv1 he hv h2
+        obtain ⟨G2, env2, ev2, hm2⟩ := ih L1 hss (hfree.head.2.mono (convStmt_attrMono L st _ h1)) inv1 he hv h2
         exact ⟨max G1 G2, env2,
           evalNodes_seq (evalNodes_mono S ns1 G1 _ _ _ (Nat.le_max_left _ _) ev1)
             (evalNodes_mono S _ G2 _ _ _ (Nat.le_max_right _ _) ev2), hm2⟩
@@ -1407,15 +1420,16 @@ theorem convTop_nest_sim (S : Sem V) (fuel : Nat) (hConst : ∀ l, ∃ c, constO
 /-- **Refinement for functions with loops nested in loops and branches.** -/
 theorem convert_correct_nest (S : Sem V) (hConst : ∀ l, ∃ c, constOf S l = some c)
     (hId : ∀ v, S.op "" "Identity" [some v] [] = some [v]) (hT : S.truth (S.ofBool true) = some true)
+    (hNat : ∀ k c, constOf S (.int k) = some c → S.natOf c = some k.toNat)
     (hNot : ∀ v bk, S.truth v = some bk → ∃ w, S.op "" "Not" [some v] [] = some [w] ∧ S.truth w = some (!bk))
     (hAnd : ∀ x y yb, S.truth y = some yb → ∃ w, S.op "" "And" [some x, some y] [] = some [w] ∧
       (yb = false → S.truth w = some false) ∧ (yb = true → S.truth w = S.truth x))
     {f : Func} {g : Graph}
-    (hil : nestLine f.body = true) (hten : AllTensorParams f.params)
+    (hil : nestLine f.body = true) (hattr : ∀ p, p ∈ attrParams f.params → p ∉ targetsBlock f.body)
     (hnames : (f.params.map Param.name).Nodup) (h : convert f = .ok g)
     {fuel : Nat} {args vs : List V} (he : evalFunc S fuel f args = some vs) :
     ∃ G, evalGraph S G g args = some vs :=
-  convert_correct_via S hten hnames h he
-    (fun hinv hb he' hc => convTop_nest_sim S fuel hConst hId hT hNot hAnd f.body _ hil hinv hb he' hc)
+  convert_correct_via S hattr hnames h he
+    (fun hfree hinv hb he' hc => convTop_nest_sim S fuel hConst hId hT hNat hNot hAnd f.body _ hil hfree hinv hb he' hc)
 
 end OV.C01
